@@ -143,7 +143,10 @@ def same_err(a: typing.List[str], b: typing.List[str]) -> bool:
 
 
 def incomparable(r: str) -> bool:
-    return r.startswith('err rejected')
+    """the RUNNER could not hand the request to the generated code: the value cannot be built in that target (`err rejected`), or the
+    Python driver refused the token stream (`bad-request`: its guard `count > number of tokens` misfires on arrays of composites
+    without tokens); exceptions raised by generated code are reported as `raised:` and stay comparable (= failures)"""
+    return r.startswith('err rejected') or r.startswith('err invalid_arg bad-request')
 
 
 class Ctx:
@@ -257,19 +260,24 @@ def maxcap(db, tid: str) -> int:
     return (db.comp(tid)['meta']['max_bits'] + 7) // 8
 
 
-def evaluate(ctx: Ctx, cases, stats: dict, want_first_only: bool = True) -> typing.Tuple[typing.List[Failure], dict]:
-    """run pass 1-3 on every target of ctx.prep and compare; returns failures (at most one per kind/pair) and counters"""
+def evaluate(ctx: Ctx, cases, stats: dict, flags: typing.Optional[set] = None) -> typing.Tuple[typing.List[Failure], dict]:
+    """run pass 1-3 on every target of ctx.prep and compare; returns failures (at most one per kind/pair) and counters;
+    `flags` (optional) receives (kind, index of the case) of EVERY failing comparison"""
     prep, db, m = ctx.prep, ctx.db, ctx.m
     targets = prep.targets
     labs = [lab for lab, _ in targets]
     tg = dict(targets)
     n = len(cases)
     cnt = {'evaluations': 0, 'pair_comparisons': 0, 'pairs_incomparable': 0, 'model_comparisons': 0, 'chain_ser_des_ser': 0,
-           'chain_des_ser_des': 0, 'tie_instances': 0, 'rejected_by_target': 0, 'nan_relaxed': 0}
+           'chain_des_ser_des': 0, 'tie_instances': 0, 'rejected_by_target': 0, 'equal_after_canonicalisation': 0}
     fails: typing.List[Failure] = []
     seen_kinds = set()
 
+    pos_of = {id(c): i for i, c in enumerate(cases)}
+
     def fail(kind: str, key, **kw) -> None:
+        if flags is not None:
+            flags.add((kind, pos_of[id(kw['case'])]))
         if (kind, key) in seen_kinds:
             for f in fails:
                 if f['kind'] == kind and f['_key'] == key:
@@ -319,7 +327,7 @@ def evaluate(ctx: Ctx, cases, stats: dict, want_first_only: bool = True) -> typi
                     continue
                 ok = agree_ser(ctx, c, ra, rb) if c.op == 'ser' else agree_des(ctx, c.tid, ra, rb)
                 if ok:
-                    cnt['nan_relaxed'] += 1
+                    cnt['equal_after_canonicalisation'] += 1
                     continue
                 if c.op == 'ser' and mixed and ctx.tie_active and not tie_free[i]:
                     rc, rp = (ra, rb) if family(ta) == 'cfam' else (rb, ra)
@@ -460,21 +468,17 @@ def case_fails(ctx: Ctx, f: Failure, cands) -> typing.List[bool]:
     """does each candidate case still show a failure of the same kind on the same target(s)?"""
     labs = [x for x in (f['a'], f['b']) if x != 'model']
     sub = Ctx(_sub_prep(ctx.prep, labs), ctx.tie_active)
-    out = []
     for c in cands:
         c.req = campaign.make_request(ctx.m, c)
-    # evaluate in one batch per candidate group (evaluate() handles lists)
-    for c in cands:
-        stats = {'strata': {}, 'responses': {}}
-        try:
-            fl, _ = evaluate(sub, [c], stats)
-        except Exception:  # noqa: BLE001
-            fl = []
-        out.append(any(x['kind'] == f['kind'] for x in fl))
-    return out
+    flags: set = set()
+    try:
+        evaluate(sub, cands, {'strata': {}, 'responses': {}}, flags)
+    except Exception:  # noqa: BLE001
+        return [False] * len(cands)
+    return [(f['kind'], i) in flags for i in range(len(cands))]
 
 
-def shrink(ctx: Ctx, f: Failure, budget: int = 10, max_cands: int = 60) -> 'campaign.Case':
+def shrink(ctx: Ctx, f: Failure, budget: int = 12, max_cands: int = 300) -> 'campaign.Case':
     cur = f['case']
     db = ctx.db
     for _ in range(budget):
@@ -655,6 +659,7 @@ def run(chk: core.Check, trusted: typing.List[str], replay: typing.Optional[str]
 
     res = core.coq_check('C03', [])
     chk.proof_coverage(res, trusted)
+    t_coq = round(time.time() - t_start, 1)
     broken: typing.List[str] = []
     if not res.ok:
         broken.append('proof obligation: %s %s' % (res.failed_file or 'translator', res.failed_theorem or ''))
@@ -665,7 +670,7 @@ def run(chk: core.Check, trusted: typing.List[str], replay: typing.Optional[str]
     stats: typing.Dict[str, typing.Any] = {'types': 0, 'cases': 0, 'builds': [], 'unavailable_targets': [], 'strata': {}, 'responses': {},
                                            'type_strata': {}, 'rounds': 0, 'tie_probe': {}}
     total = {'evaluations': 0, 'pair_comparisons': 0, 'pairs_incomparable': 0, 'model_comparisons': 0, 'chain_ser_des_ser': 0,
-             'chain_des_ser_des': 0, 'tie_instances': 0, 'rejected_by_target': 0, 'nan_relaxed': 0}
+             'chain_des_ser_des': 0, 'tie_instances': 0, 'rejected_by_target': 0, 'equal_after_canonicalisation': 0}
     distinct = set()
     samples: typing.List[dict] = []
     reported = False
@@ -692,7 +697,9 @@ def run(chk: core.Check, trusted: typing.List[str], replay: typing.Optional[str]
             reported = True
             break
         matrix = option_matrix(chk.tier, chk.rng)
+        t_b = time.time()
         campaign.build_targets(prep, matrix, core.REPO, max_workers=6)
+        stats['wall_builds_s'] = round(stats.get('wall_builds_s', 0) + time.time() - t_b, 1)
         stats['unavailable_targets'] = sorted(set(stats['unavailable_targets']) | set(prep.unavailable))
         stats['builds'] = sorted(set(stats['builds']) | {lab for lab, _ in prep.targets})
         if prep.build_failures:
@@ -712,7 +719,9 @@ def run(chk: core.Check, trusted: typing.List[str], replay: typing.Optional[str]
 
         cases = make_cases(chk.rng, prep, sizes)
         stats['cases'] += len(cases)
+        t_e = time.time()
         fails, cnt = evaluate(ctx, cases, stats)
+        stats['wall_evaluate_s'] = round(stats.get('wall_evaluate_s', 0) + time.time() - t_e, 1)
         for k, v in cnt.items():
             total[k] += v
         for c in cases:
@@ -739,15 +748,6 @@ def run(chk: core.Check, trusted: typing.List[str], replay: typing.Optional[str]
                    'files': files, 'tie_active': tie_active, 'broken': broken,
                    'all_failures': [{'kind': x['kind'], 'a': x['a'], 'b': x['b'], 'n': x.get('n_failing', 1), 'step': x.get('step', ''),
                                      'request': x['case'].req[:200]} for x in fails[:20]]}
-            # answers on the shrunk case
-            try:
-                labs = [p['label'] for p in pair]
-                sub = _sub_prep(prep, labs) if small.tid in prep.db.types and all(l in dict(prep.targets) for l in labs) else None
-                if sub is not None and files is not None and small.req:
-                    rr = {lab: t.run([small.req], timeout=60.0)[0] for lab, t in sub.targets}
-                    rep['answers_on_shrunk_case_original_namespace'] = rr
-            except Exception:  # noqa: BLE001
-                pass
             chk.violation(rep, found_input=True)
             reported = True
         for _, t in prep.targets:
@@ -765,6 +765,7 @@ def run(chk: core.Check, trusted: typing.List[str], replay: typing.Optional[str]
                                                                stats['tie_probe'].get('py')))
     stats.update(total)
     stats['wall_campaign_s'] = round(time.time() - t_start, 1)
+    stats['wall_coq_s'] = t_coq
     chk.coverage.update({
         'evaluations': total['evaluations'],
         'distinct_nontrivial': len(distinct),
